@@ -28,18 +28,26 @@ def _opposite(side: str) -> str:
     return 'comp' if side == 'user' else 'user'
 
 
-def check_routing(log: List[dict], meta: Dict[str, Any], expected_client: Optional[str] = 'A'
+def check_routing(log: List[dict], meta: Dict[str, Any], expected_client: Optional[str] = 'model'
                   ) -> Tuple[List[Viol], Dict[str, int]]:
     """C01: every stimulus arrives exactly once at the same-named event of the same-named port
     on the other side, arguments in order and intact, reply and out/inout values carried back."""
     viols: List[Viol] = []
     counts = {'stimuli': 0, 'arrivals': 0, 'args_compared': 0, 'returns_compared': 0}
     routes = set()
+    holders: List[str] = []     # clients whose latest claim was granted and who did not release
+    mc = meta.get('mc') or {}
     for win in windows(log):
         call = win['call']['d']
         counts['stimuli'] += 1
         arrivals = [r for r in win['records'] if r['kind'] == 'arrive']
         dones = [r for r in win['records'] if r['kind'] == 'arrive_done']
+        if mc and call['side'] == 'user' and call['port'] == mc['port']:
+            who = call.get('client')
+            if call['event'] == mc['claim'] and dones and dones[0]['d']['reply'] == mc['grant']:
+                holders = [h for h in holders if h != who] + [who]
+            elif call['event'] == mc['release']:
+                holders = [h for h in holders if h != who]
         rets = [r for r in win['records'] if r['kind'] == 'return'
                 and r['d'].get('stim') == call['stim']]
         counts['arrivals'] += len(arrivals)
@@ -70,9 +78,14 @@ def check_routing(log: List[dict], meta: Dict[str, Any], expected_client: Option
             kind = 'reordered' if sorted(arr['args']) == sorted(call['args']) else 'altered'
             viols.append((f'arguments-{kind}', dict(detail, sent=call['args'], got=arr['args'])))
         if ident['multiclient'] and call['side'] == 'comp' and expected_client is not None:
-            if arr.get('client') != expected_client:
-                viols.append(('multiclient-out-event-to-wrong-client',
-                              dict(detail, client=arr.get('client'))))
+            want = expected_client if expected_client != 'model' else \
+                (holders[0] if len(holders) == 1 else None)
+            if want is not None:
+                counts['multiclient_receivers_compared'] = \
+                    counts.get('multiclient_receivers_compared', 0) + 1
+                if arr.get('client') != want:
+                    viols.append(('multiclient-out-event-to-wrong-client',
+                                  dict(detail, client=arr.get('client'), holder=want)))
         if rets and dones:
             counts['returns_compared'] += 1
             ret, done = rets[0]['d'], dones[0]['d']
